@@ -19,9 +19,11 @@ theorem Inv.step_of_evolves {s s' : State} (h : Inv s) (hc : Coherent s') (he : 
   · rw [f.nextUid]; exact h.uidPos
 
 /-- no live bound pod's key is a pool / deployment prefix -/
-theorem Inv.not_liveKey_prefix {s : State} (h : Inv s) (k : Key) : ¬ LiveKey s.pods k.poolPrefix := by
-  rintro ⟨q, hq, hk⟩
-  exact keyOf_ne_poolPrefix q (h.podsWF _ q hq.1).2.2.2 k hk
+theorem Inv.not_liveKey_prefix {s : State} (h : Inv s) (k : Key) (hna : k.poolPrefix.isAdmin = false) :
+    ¬ LiveKey s.pods k.poolPrefix := by
+  rintro (⟨q, hq, hk⟩ | ha)
+  · exact keyOf_ne_poolPrefix q (h.podsWF _ q hq.1).2.2.2 k hk
+  · rw [hna] at ha; cases ha
 
 /-- under the key of a pod of the table only that pod can be the live bound one -/
 theorem Inv.newOK_of_pod {s : State} (h : Inv s) (id : String × String) (p : Pod) (hp : Tbl.get s.pods id = some p) :
@@ -30,13 +32,13 @@ theorem Inv.newOK_of_pod {s : State} (h : Inv s) (id : String × String) (p : Po
 
 /-- `Chg` from free / prefix-keyed records to records of pod `p` is safe -/
 theorem Inv.evolves_of_chg_pod {s s' : State} (h : Inv s) (id : String × String) (p : Pod) (k0 : Key)
-    (hp : Tbl.get s.pods id = some p)
+    (hp : Tbl.get s.pods id = some p) (hna : k0.poolPrefix.isAdmin = false)
     (c : Chg (fun o => isFree o ∨ hasKey k0.poolPrefix o) (hasKeyUid (keyOf p) p.uid) s s') : Evolves s.pods s s' := by
   apply c.evolves
   · intro o ho r hr
     rcases ho with ho | ⟨r', h1, h2⟩
     · rw [ho] at hr; cases hr
-    · rw [h1] at hr; cases hr; rw [h2]; exact h.not_liveKey_prefix k0
+    · rw [h1] at hr; cases hr; rw [h2]; exact h.not_liveKey_prefix k0 hna
   · intro n hn r hr
     trivial
 
@@ -86,7 +88,7 @@ theorem getNodeSubnet_quiet (s : State) (node : String) : QuietStep s (getNodeSu
     · exact QuietStep.refl s
     · split
       · exact QuietStep.refl s
-      · exact ⟨⟨rfl, rfl, rfl, rfl, rfl, rfl, rfl, rfl, rfl, rfl, rfl, rfl, rfl, rfl, Nat.le_refl _⟩, rfl, rfl, rfl⟩
+      · exact ⟨⟨rfl, rfl, rfl, rfl, rfl, rfl, rfl, rfl, rfl, rfl, rfl, rfl, rfl, rfl, Nat.le_refl _, rfl⟩, rfl, rfl, rfl⟩
 
 theorem getNodeSubnet_plog (s : State) (node : String) : (getNodeSubnet s node).1.plog = s.plog := by
   unfold getNodeSubnet
@@ -133,16 +135,57 @@ theorem inv_filter_core (s : State) (ns name : String) (nodes : List String) (ch
           have c := allocateDuringFilter_chg s (keyOf pod) resv n { policy := policyOf pod, node := "", uid := pod.uid }
             ch.pick h.coh
           exact h.step_of_evolves (allocateDuringFilter_coherent s _ resv n _ ch.pick h.coh)
-            (h.evolves_of_chg_pod (ns, name) pod (keyOf pod) hpod c)
+            (h.evolves_of_chg_pod (ns, name) pod (keyOf pod) hpod (keyOf_poolPrefix_not_admin pod) c)
       split
       · exact h
       · exact key
       · rename_i set _
         have q := (filterNodes_quiet set nodes [] (getSubnet s pod ch).1).1
-        exact key.of_fields q.frame.pools q.alloc q.free q.store q.frame.pods q.frame.vPods q.frame.events q.frame.nextUid
+        exact key.of_fields q.frame.pools q.alloc q.free q.store q.frame.pods q.frame.vPods q.frame.events q.frame.nextUid q.frame.admin
 
 theorem inv_filter (s : State) (ns name : String) (nodes : List String) (ch : Choice) (fault : Nat) (h : Inv s) :
     Inv (step Facts.good s (.filter ns name nodes ch fault)).1 :=
   inv_filter_core _ ns name nodes ch (inv_withFaults s fault 0 h)
+
+theorem inv_getSubnet (s : State) (ns name : String) (pod : Pod) (ch : Choice) (h : Inv s)
+    (hpod : Tbl.get s.pods (ns, name) = some pod) : Inv (getSubnet s pod ch).1 := by
+  rcases getSubnet_state s pod ch with e | ⟨resv, n, e⟩
+  · rw [e]; exact h
+  · rw [e]
+    have c := allocateDuringFilter_chg s (keyOf pod) resv n { policy := policyOf pod, node := "", uid := pod.uid }
+      ch.pick h.coh
+    exact h.step_of_evolves (allocateDuringFilter_coherent s _ resv n _ ch.pick h.coh)
+      (h.evolves_of_chg_pod (ns, name) pod (keyOf pod) hpod (keyOf_poolPrefix_not_admin pod) c)
+
+theorem inv_preempt_core (s : State) (ns name : String) (nodes : List String) (ch : Choice) (h : Inv s) :
+    Inv (preempt s ns name nodes ch).1 := by
+  unfold preempt
+  split
+  · exact h
+  · rename_i pod hpod
+    split
+    · exact h
+    · have key := inv_getSubnet s ns name pod ch h hpod
+      split
+      · exact h
+      · exact key
+      · rename_i set _
+        have q := (filterNodes_quiet set nodes [] (getSubnet s pod ch).1).1
+        exact key.of_fields q.frame.pools q.alloc q.free q.store q.frame.pods q.frame.vPods q.frame.events q.frame.nextUid q.frame.admin
+
+theorem inv_preempt (s : State) (ns name : String) (nodes : List String) (ch : Choice) (fault : Nat) (h : Inv s) :
+    Inv (step Facts.good s (.preempt ns name nodes ch fault)).1 :=
+  inv_preempt_core _ ns name nodes ch (inv_withFaults s fault 0 h)
+
+/-- The allocation `getSubnet` may make for a pod of API truth is safe in ANY state, whatever subnet, reserve flag and
+    pick it was computed with: Preempt runs `getSubnet` without the pod lock, so between its reads and this call anything
+    may have happened to the pod's key - the live bound pods' records are untouched all the same (only unallocated
+    addresses and records keyed by the pool / deployment prefix are taken, and they are stored with the pod's own uid). -/
+theorem preempt_alloc_any_time (s : State) (ns name : String) (pod : Pod) (resv : Bool) (n : Subnet) (policy : Nat)
+    (pick : Option IP) (h : Inv s) (hpod : Tbl.get s.pods (ns, name) = some pod) :
+    Inv (allocateDuringFilter s (keyOf pod) resv n { policy := policy, node := "", uid := pod.uid } pick).1 := by
+  have c := allocateDuringFilter_chg s (keyOf pod) resv n { policy := policy, node := "", uid := pod.uid } pick h.coh
+  exact h.step_of_evolves (allocateDuringFilter_coherent s _ resv n _ pick h.coh)
+    (h.evolves_of_chg_pod (ns, name) pod (keyOf pod) hpod (keyOf_poolPrefix_not_admin pod) c)
 
 end Galaxy.Plugin
